@@ -299,13 +299,8 @@ HS_FN void check_nav_one(const HexK &m, const HSnap &s, int R, int k) {
     v_assert(got2_ok, "C16 neighboring_outside_halfface returns the boundary halfface of another face around he");
   }
 }
-static void check_navigation(const HexK &m, const HSnap &s) {
-#ifdef C16_NAV_SYMBOLIC
-  int R = hprobe_below(2 * s.nF), k = hprobe_below(4);
-  if (s.nF > 0 && !s.fdel[R >> 1]) check_nav_one(m, s, R, k);
-#else
-  for (int R = 0; R < 2 * s.nF; ++R) if (!s.fdel[R >> 1]) { check_nav_one(m, s, R, 0); check_nav_one(m, s, R, 1); check_nav_one(m, s, R, 2); check_nav_one(m, s, R, 3); }
-#endif
+static void check_navigation(const HexK &m, const HSnap &s, int rlo, int rhi) {
+  for (int R = rlo; R < rhi && R < 2 * s.nF; ++R) if (!s.fdel[R >> 1]) { check_nav_one(m, s, R, 0); check_nav_one(m, s, R, 1); check_nav_one(m, s, R, 2); check_nav_one(m, s, R, 3); }
 }
 
 // HexVertexIter / hex_vertices: documented cube pattern
@@ -370,15 +365,16 @@ HS_FN void check_hfshf_one(const HexK &m, const HSnap &s, int R, int thf) {
   v_assert(cnt == exp, "C16 halfface_sheet_halffaces(hf) == the matching halffaces of the sheet neighbours");
   v_assert(edges_ok, "C16 common_edge() is an edge of both the reference and the current halfface");
 }
-static void check_sheet_iters(const HexK &m, const HSnap &s) {
+static void check_sheet_iters(const HexK &m, const HSnap &s, int rlo, int rhi) {
   const int tc = hprobe_below(s.nC), thf = hprobe_below(2 * s.nF);
-  for (int c = 0; c < s.nC; ++c) if (!s.cdel[c]) for (int d = 0; d < 6; ++d) check_csc_one(m, s, c, d, tc);
-  for (int R = 0; R < 2 * s.nF; ++R) if (!s.fdel[R >> 1]) check_hfshf_one(m, s, R, thf);
+  if (rlo == 0) for (int c = 0; c < s.nC; ++c) if (!s.cdel[c]) for (int d = 0; d < 6; ++d) check_csc_one(m, s, c, d, tc);
+  for (int R = rlo; R < rhi && R < 2 * s.nF; ++R) if (!s.fdel[R >> 1]) check_hfshf_one(m, s, R, thf);
 }
 
-// parts: bit0 convention, bit1 orientation helpers, bit2 boundary, bit3 navigation, bit4 hex_vertices, bit5 sheet circulators
+// parts: bit0 convention, bit1 orientation helpers, bit2 boundary, bit3 navigation, bit4 hex_vertices, bit5 sheet circulators;
+// [rlo,rhi) = range of reference halffaces for the navigation / halfface-sheet parts (sharding)
 enum { P_CONV = 1, P_ORI = 2, P_BND = 4, P_NAV = 8, P_HV = 16, P_SHEET = 32, P_ALL = 63 };
-static void check_hex_all(const HexK &m, unsigned parts = P_ALL) {
+static void check_hex_all(const HexK &m, unsigned parts = P_ALL, int rlo = 0, int rhi = 2 * HXF) {
   HSnap s; hs_take(m, s);
   v_assert(!s.overflow, "C16 harness snapshot capacity");
   if (s.overflow) return;
@@ -386,7 +382,46 @@ static void check_hex_all(const HexK &m, unsigned parts = P_ALL) {
   if (parts & P_CONV) for (int c = 0; c < s.nC; ++c) if (!s.cdel[c]) check_convention(s, c);
   if (parts & P_ORI) check_orientation_helpers(m, s);
   if (parts & P_BND) check_boundary(m, s);
-  if (parts & P_NAV) check_navigation(m, s);
+  if (parts & P_NAV) check_navigation(m, s, rlo, rhi);
   if (parts & P_HV) check_hex_vertices(m, s);
-  if (parts & P_SHEET) check_sheet_iters(m, s);
+  if (parts & P_SHEET) check_sheet_iters(m, s, rlo, rhi);
+}
+
+// ---------------------------------------------------------------------------- add_cell(8 vertices): documented positions
+// halfface vertex lists of add_cell(vertices) in terms of the documented positions: XF XB YF YB ZF ZB
+static const int DOC_FACE[6][4] = {{3, 2, 1, 0}, {7, 6, 5, 4}, {1, 2, 6, 7}, {4, 5, 3, 0}, {1, 7, 4, 0}, {2, 3, 5, 6}};
+// cube edges of the documented picture
+static const int DOC_EDGE[12][2] = {{0, 1}, {1, 2}, {2, 3}, {3, 0}, {4, 7}, {7, 6}, {6, 5}, {5, 4}, {0, 4}, {1, 7}, {2, 6}, {3, 5}};
+static const int DOC_BEHIND[4] = {4, 7, 6, 5};   // position behind front position 0,1,2,3
+
+// hex_vertices(c) is the documented pattern of the vertex list v[0..7] given to add_cell(vertices), up to a rotation about the first axis
+HS_FN void check_hv_matches_input(const HexK &m, int c, const int *v) {
+  int hv[9]; int n = 0;
+  for (HexVertexIter it = m.hv_iter(CH(c)); it.valid() && n < 9; ++it) hv[n++] = (*it).idx();
+  v_assert(n == 8, "C16 hv_iter yields exactly eight vertices in one lap");
+  if (n != 8) return;
+  int r = -1;
+  for (int j = 0; j < 4; ++j) if (hv[0] == v[j]) r = j;
+  v_assert(r >= 0, "C16 hex_vertices of a cell made from 8 vertices starts on the documented front face");
+  if (r < 0) return;
+  bool ok = true;
+  for (int j = 0; j < 4; ++j) if (hv[j] != v[(r + j) % 4]) ok = false;
+  if (hv[4] != v[DOC_BEHIND[r]] || hv[7] != v[DOC_BEHIND[(r + 1) % 4]] || hv[6] != v[DOC_BEHIND[(r + 2) % 4]] || hv[5] != v[DOC_BEHIND[(r + 3) % 4]]) ok = false;
+  v_assert(ok, "C16 hex_vertices of a cell made from 8 vertices == the documented pattern of the input, up to a rotation about the first axis");
+}
+
+// no two live faces with the same vertex set, no two live edges with the same end points
+HS_FN bool hs_same_face_vertices(const HSnap &s, int f, int g) {
+  if (s.fval[f] != s.fval[g]) return false;
+  bool all = true;
+  for (int k = 0; k < HXFV; ++k) if (k < s.fval[f]) { int e = s.fhe[f][k] >> 1; if (!hs_face_has_vertex(s, g, s.efrom[e]) || !hs_face_has_vertex(s, g, s.eto[e])) all = false; }
+  return all;
+}
+HS_FN void check_no_duplicates(const HSnap &s) {
+  bool dupe = false, dupf = false;
+  for (int a = 0; a < s.nE; ++a) for (int b = a + 1; b < s.nE; ++b)
+    if (!s.edel[a] && !s.edel[b] && ((s.efrom[a] == s.efrom[b] && s.eto[a] == s.eto[b]) || (s.efrom[a] == s.eto[b] && s.eto[a] == s.efrom[b]))) dupe = true;
+  for (int a = 0; a < s.nF; ++a) if (!s.fdel[a]) for (int b = a + 1; b < s.nF; ++b) if (!s.fdel[b] && hs_same_face_vertices(s, a, b)) dupf = true;
+  v_assert(!dupe, "C16 add_cell(vertices) reuses existing edges: no two live edges join the same vertices");
+  v_assert(!dupf, "C16 add_cell(vertices) reuses existing faces: no two live faces have the same vertices");
 }
